@@ -86,7 +86,11 @@ def generate(rng, tier):
                 fmts = sorted(rng.sample(rest, min(len(rest), rng.randint(1, 2))))
         args = gen.fmt_args(fmts)
         if g > 0 and rng.random() < 0.25:
-            args += ["-sf", "@R/" + rng.choice(files)]
+            f = rng.choice(files)
+            spelled = "@R/" + f
+            if rng.random() < 0.25:
+                spelled = rng.choice(["@R/./" + f, "@R//" + f, "@R/" + f.split("/")[0] + "/../" + f if "/" in f else "@R/./" + f])
+            args += ["-sf", spelled]
         elif rng.random() < 0.1:
             args.append("-n")
         root = "@R"
@@ -221,9 +225,9 @@ def execute(sc, ctx):
         if "-sf" in argv:
             for i, a in enumerate(argv):
                 if a == "-sf":
-                    judged.append(w.expand(argv[i + 1]))
+                    judged.append(w.abs_of(argv[i + 1]))
         else:
-            rootp = w.expand(argv[1])
+            rootp = w.abs_of(argv[1])
             judged = [p for p in first_content if p.startswith(rootp + os.sep)]
         altered = [p for p in judged if os.path.isfile(p) and p in first_content and observe.read_bytes(p) != first_content[p]]
         want_code = 11 if altered else 0
